@@ -348,12 +348,30 @@ def check_encode(ctx, F, A):
                       "next one is fetched (fetched - written at fetch: %r)" % ([o["bal"] for o in nx][:3],))
 
 
+def enc_variants(F):
+    """canonical name -> variant index of the iterator encoder's private state enum.  If the variants were renamed they are
+    identified by shape: the one with a signed counter is the trailer state, the three with an unsigned counter are, in
+    declaration order, start sequence / payload / inserted escape (a wrong identification makes the table rules fail; it cannot
+    hide a defect)."""
+    vs = F.adts[ENCST]["variants"]
+    names = {v["name"]: v["idx"] for v in vs}
+    want = ("Init", "LookingForEscape", "HandlingEscape", "End")
+    if all(n in names for n in want):
+        return names
+    signed = [v["idx"] for v in vs if len(v["fields"]) == 1 and v["fields"][0]["ty"].get("k") == "int" and v["fields"][0]["ty"].get("sg")]
+    unsigned = [v["idx"] for v in vs if len(v["fields"]) == 1 and v["fields"][0]["ty"].get("k") == "int" and not v["fields"][0]["ty"].get("sg")]
+    if len(vs) != 4 or len(signed) != 1 or len(unsigned) != 3:
+        raise AnchorMissing("EncoderState: variants %r cannot be identified" % sorted(names))
+    unsigned.sort()
+    return {"Init": unsigned[0], "LookingForEscape": unsigned[1], "HandlingEscape": unsigned[2], "End": signed[0]}
+
+
 def enc_state(ip, F, variant, n):
     st = ip.new_state()
     adt = F.adts[ENC]
     fields = adt["variants"][0]["fields"]
     vals = []
-    stv = {v["name"]: v["idx"] for v in F.adts[ENCST]["variants"]}
+    stv = enc_variants(F)
     for fl in fields:
         t = fl["ty"]
         if t.get("k") == "adt" and t["def"] == ENCST:
@@ -411,7 +429,7 @@ def check_iter(ctx, F, A):
                             "iter": s3.ghost.get("c07-iter", 0), "obj": obj, "final": s3.ghost.get("c07-final", False),
                             "obj0": st.mem.get(root)})
         return res
-    stv_all = {v["name"]: v["idx"] for v in F.adts[ENCST]["variants"]}
+    stv_all = enc_variants(F)
 
     def pad_of(st, obj):
         """the pad count an encoder object stands for = the byte it emits in state End(5); (state, Lin) or None"""
